@@ -7,6 +7,9 @@ CLAIMED = {
  "C06": dict(engine="W", cat="exploration", tech="deterministic simulation: seeded map-iteration schedules, clocks and pids over generated worlds; differential replicate oracle + re-run histories",
    text="Seeded search over (world, map-iteration schedule, clock, pid): each generated multi-package world is run k times by the instrumented CLI under forced extreme (asc/desc), rotated and random iteration orders at every map-range site, with clocks years apart; exit status and whole-tree digest must agree, and two re-runs over the result tree must leave it byte-identical. Sampling, not proof; no model of mockery is involved, so a disagreement is a behaviour of the real code.",
    ref="§4 C06", note="Trusted: the source-to-source seam (every order it produces is one Go may produce); dependencies and `go list` run un-instrumented; worlds are bounded (≤5 packages, ≤3 interfaces each)."),
+ "C09": dict(engine="W", cat="fault_enumeration", tech="deterministic simulation with fault injection: enumerated invalidity classes x configuration levels x seeded map-iteration schedules on generated worlds; scripted HTTP origin faults; exit-status/diagnostic/no-panic oracle",
+   text="Every invalidity class the statement lists (missing interface, load/type error, unknown template/formatter/key, bad regex, cyclic templated value, schema-rejected template-data, per-file conflicts, template/schema retrieval faults through the simulated transport, unwritable output paths) is injected alone at every configuration level where mockery consults the setting, and in seeded pairs, into valid multi-package worlds run by the instrumented CLI under forced asc/desc (thorough: also random) iteration orders: exit must be non-zero with a diagnostic and no Go panic; valid-but-unusual worlds (function-local interfaces, build tags, doc-only packages, go.mod module-line spellings) must exit 0 with every configured mock on disk. The single-fault matrix is enumerated completely per baseline world; worlds and pairs are sampled.",
+   ref="§4 C09", note="Trusted: fault injectors place each invalidity where the setting is consulted; `go list` and dependencies run for real, un-instrumented. Which files are written after a failure is judged by C10, not here."),
 }
 NA = {
  "C01": "pure (sources, configuration) -> bytes relation with no schedule, clock, fault or carried state; its only order-dependence residue is decided by C06",
